@@ -19,7 +19,9 @@ pub struct Corr {
     /// 4 inner commitment (after challenges), 5 folding challenge, 6 last-layer coefficient,
     /// 7 last-layer length+1, 8 last-layer length-1, 9 declared bound+1 (length unchanged),
     /// 10 inner commitment changed *before* the commit phase (through fri_commit),
-    /// 11 drop a sibling leaf, 12 drop an inner auth node
+    /// 11 drop a sibling leaf, 12 drop an inner auth node,
+    /// 13 zero coefficient appended to the last layer of the *commitment* (fri_verify called directly),
+    /// 14 top coefficient dropped from the commitment's last layer, 15 last layer doubled with zeros
     pub kind: u8,
     pub a: u16,
     pub b: u16,
@@ -40,13 +42,13 @@ fn pick(sel: u16, len: u64) -> u64 {
 pub fn strategy(budget: u32) -> impl Strategy<Value = Case> {
     (
         inst_strategy(budget),
-        proptest::collection::vec((0u8..13, any::<u16>(), any::<u16>()).prop_map(|(kind, a, b)| Corr { kind, a, b }), 1..10),
+        proptest::collection::vec((0u8..16, any::<u16>(), any::<u16>()).prop_map(|(kind, a, b)| Corr { kind, a, b }), 1..10),
         prop_oneof![4 => Just(None), 1 => any::<u16>().prop_map(Some)],
     )
         .prop_map(|(inst, corrs, high)| Case { inst, corrs, high })
 }
 
-const KINDS: [&str; 13] = [
+const KINDS: [&str; 16] = [
     "input_value",
     "query_point",
     "sibling_leaf",
@@ -60,6 +62,9 @@ const KINDS: [&str; 13] = [
     "inner_commitment_pre_commit",
     "drop_sibling_leaf",
     "drop_inner_auth_node",
+    "commitment_last_layer_plus_zero",
+    "commitment_last_layer_minus_one",
+    "commitment_last_layer_doubled",
 ];
 
 /// returns Vec of (class, fingerprint-key, accepted?) or a panic-as-rejection; Err(fail) on harness-level problems
@@ -92,6 +97,27 @@ pub fn check(case: &Case) -> Outcome {
         let qf: Vec<Felt> = qs.iter().map(|q| Felt::from(*q)).collect();
         let dec = Decommitment { values: open.values.clone(), points: open.points.clone() };
         let w = witness(&open);
+        // variant: the prover hands fri_verify its *true* final polynomial, which is longer than 2^bound
+        // (only the exact-length rule stands between this and acceptance)
+        if sel % 2 == 1 {
+            let true_last = fi.coefs[p.n_inner()].clone();
+            if true_last.len() > (1usize << p.log_last) {
+                let mut c2 = Commitment { config: commitment.config.clone(), inner_layers: commitment.inner_layers.clone(), eval_points: commitment.eval_points.clone(), last_layer_coefficients: true_last };
+                // trim trailing zeros so that the length is minimal
+                while c2.last_layer_coefficients.last() == Some(&Felt::ZERO) {
+                    c2.last_layer_coefficients.pop();
+                }
+                let (qf2, dec2, w2) = (qf.clone(), Decommitment { values: open.values.clone(), points: open.points.clone() }, witness(&open));
+                if let Ok(Ok(())) = guarded(false, move || fri_verify(&qf2, c2, dec2, w2)) {
+                    return Outcome::failed(
+                        format!("high_degree_true_last_layer/blowup{}", p.log_blowup),
+                        f,
+                        "c07:high_degree_accepted_with_long_last_layer",
+                        format!("function of degree {} >= bound {} accepted when its true last layer ({} coefficients > 2^{}) is supplied", deg, bound, fi.coefs[p.n_inner()].len(), p.log_last),
+                    );
+                }
+            }
+        }
         return match guarded(false, move || fri_verify(&qf, commitment, dec, w)) {
             Ok(Ok(())) => Outcome::failed(
                 class,
@@ -193,6 +219,21 @@ pub fn check(case: &Case) -> Outcome {
                 let k = pick(c.b, a.len() as u64) as usize;
                 a.remove(k);
                 detail = format!("/layer{}of{}", layer, n_inner);
+            }
+            13 => {
+                // the polynomial is unchanged (a zero coefficient on top): only the length check can object
+                post = Some(Box::new(move |cm: &mut Commitment| cm.last_layer_coefficients.push(Felt::ZERO)));
+            }
+            14 => {
+                post = Some(Box::new(move |cm: &mut Commitment| {
+                    cm.last_layer_coefficients.pop();
+                }));
+            }
+            15 => {
+                post = Some(Box::new(move |cm: &mut Commitment| {
+                    let n = cm.last_layer_coefficients.len();
+                    cm.last_layer_coefficients.resize(2 * n, Felt::ZERO);
+                }));
             }
             _ => unreachable!(),
         }
